@@ -1425,6 +1425,7 @@ class C01(Spec):
             n = sum(c['chunks'])
             for _ in range(30):
                 d = copy.deepcopy(c)
+                d.pop('gsr', None)      # (the count get_samples_remaining() is expected to deliver belongs to the old chunks)
                 d['chunks'] = S.boundary_chunks(rng, max(n + rng.randint(0, 3), 1), S.marks_of(c['tree']))
                 yield d
         elif c['kind'] != 'exh':
